@@ -129,8 +129,24 @@ def build_case(cid, g, rng, nbatches, images=None, faults_p=0.0, alloc=None, ope
             if rng.random() < 0.4:
                 ops.append(('F',))
             rng.shuffle(ops)
+        spread_style = False
+        if (not evict_style and not stale_style and images is None and b == 0 and l2_slots <= 3
+                and nclus >= per_slice * (l2_slots + 3) and rng.random() < 0.6):
+            # more concurrent writes into distinct, not yet cached L2 slices than the L2 cache has slots: every slice load
+            # has to evict a dirty slice of another task (write-back awaited) while the others commit theirs
+            nsl = nclus // per_slice
+            m = min(nsl, l2_slots + rng.choice([1, 2, 3, 4, 6]))
+            sls = rng.sample(range(nsl), m)
+            ops = []
+            for sl in sls:
+                tag += 1
+                ops.append(('W', (sl * per_slice + rng.randrange(0, per_slice)) * g.cs, 512, tag))
+            if rng.random() < 0.3:
+                ops.append(rng.choice([('F',), ('K',), ('R', sls[0] * per_slice * g.cs, 512)]))
+            rng.shuffle(ops)
+            spread_style = True
         open_style = False
-        if not evict_style and not stale_style and b == 0 and alloc and (open_only or rng.random() < 0.35):
+        if not evict_style and not stale_style and not spread_style and b == 0 and alloc and (open_only or rng.random() < 0.35):
             # right after open (nothing cached yet): an operation that releases a host cluster has to load the refcount
             # block slice first - next to a flush_meta that scans the refcount cache meanwhile
             a = rng.choice(alloc)
